@@ -69,7 +69,8 @@ def bounded(tier, seed):
     r1 = P.sweep(seed, n, [P.same_structure, P.generated_tokens_present, P.generated_code_verbatim], option_sets=fill, budget_s=25 if tier == "quick" else 600)
     r2 = P.sweep(seed + 7919, n, [P.same_structure, P.generated_tokens_present, P.generated_code_verbatim], option_sets=sem, hazards=False, budget_s=20 if tier == "quick" else 600)
     ev = []
-    ne = escape_word_sweep(ev) + punctuation_sweep(ev)
+    from . import funcspecs as FS
+    ne = escape_word_sweep(ev) + punctuation_sweep(ev) + FS.bare_url_test(ev)
     return {"evaluations": r1["evaluations"] + r2["evaluations"] + ne, "distinct_nontrivial": r1["distinct_nontrivial"] + r2["distinct_nontrivial"],
             "violations": r1["violations"] + r2["violations"] + ev, "samples": r1["samples"],
             "rule": "(also: _is_unicode_punctuation == the GFM definition on every code point below U+3000) (also: markdown_escape_word on every word of <= 4 symbols over an 11-symbol alphabet against the CommonMark block-start "
